@@ -56,6 +56,12 @@ def c18(tier, seed):
         jobs.append(J(CMDS, "VerifK18eWriteCommand", model="condition_userset", ids=3, unwind=40))
     jobs.append(J(CMDS, "VerifK18eContextSize", model="k18mix", rel="viewer", unwind=40))
     jobs.append(J(CMDS, "VerifK18eContextSize", model="condition", rel="viewer", unwind=40))
+    # model k18self: `group#member: [user, group#member, group#member with c1]` (a conditioned userset of itself) and
+    # parameters of type int / any / bool / string: implicit tuples with a condition, null context values
+    jobs.append(J(CMDS, "VerifK18eWriteCommand", model="k18self", ids=3, conds=1, unwind=40))
+    jobs.append(J(VAL, "VerifK18nNullContext", model="k18self", unwind=40))
+    jobs.append(J(VAL, "VerifK18nNullContext", model="k18mix", unwind=40))
+    jobs.append(J(VAL, "VerifK18aVocabulary", model="k18self", ids=3, unwind=40))
     return jobs
 
 
